@@ -198,3 +198,204 @@ def _std_const(v, name, problems, path):
             if got != elem:
                 problems.append(f"{path}.values[{i}]: element type {got} != {elem}")
             inhabits(ev, problems, f"{path}.values[{i}]")
+
+
+# ----------------------------------------------------------------------------- port tables
+def _fn(sig):
+    return canon({"t": "G", **sig})
+
+
+def op_ports(op):
+    """Port table of a serialized op (transcribed from hugr-core ops: value ports, then the static
+    port, then the 'other' (order / control-flow) port).
+    Returns {"in": [kind..], "out": [kind..], "other_in": k|None, "other_out": k|None} with
+    kind = ("value", canonical type) | ("const", type) | ("func", canonical poly) | "order" | "cf"."""
+    k = op["op"]
+    V = lambda row: [("value", canon(t)) for t in row]  # noqa: E731
+    none = {"in": [], "out": [], "other_in": None, "other_out": None}
+    df = lambda i, o: {"in": V(i), "out": V(o), "other_in": "order", "other_out": "order"}  # noqa: E731
+    if k in ("Module", "AliasDecl", "AliasDefn", "Case"):
+        return none
+    if k in ("FuncDefn", "FuncDecl"):
+        return {**none, "out": [("func", canon_poly(op["signature"]))]}
+    if k == "Const":
+        return {**none, "out": [("const", type_of_value(op["v"]))]}
+    if k == "Input":
+        return {"in": [], "out": V(op["types"]), "other_in": None, "other_out": "order"}
+    if k == "Output":
+        return {"in": V(op["types"]), "out": [], "other_in": "order", "other_out": None}
+    if k in ("DFG", "CFG"):
+        return df(op["signature"]["input"], op["signature"]["output"])
+    if k == "DataflowBlock":
+        return {"in": [], "out": ["cf"] * len(op["sum_rows"]), "other_in": "cf", "other_out": None}
+    if k == "ExitBlock":
+        return {**none, "other_in": "cf"}
+    if k == "Conditional":
+        return df([{"t": "Sum", "s": "General", "rows": op["sum_rows"]}, *op["other_inputs"]], op["outputs"])
+    if k == "TailLoop":
+        return df([*op["just_inputs"], *op["rest"]], [*op["just_outputs"], *op["rest"]])
+    if k == "Call":
+        p = df(op["instantiation"]["input"], op["instantiation"]["output"])
+        p["in"].append(("func", canon_poly(op["func_sig"])))
+        return p
+    if k == "CallIndirect":
+        s = op["signature"]
+        return df([{"t": "G", **s}, *s["input"]], s["output"])
+    if k == "LoadConstant":
+        p = df([], [op["datatype"]])
+        p["in"].append(("const", canon(op["datatype"])))
+        return p
+    if k == "LoadFunction":
+        p = df([], [{"t": "G", **op["instantiation"]}])
+        p["in"].append(("func", canon_poly(op["func_sig"])))
+        return p
+    if k == "Extension":
+        return df(op["signature"]["input"], op["signature"]["output"])
+    if k == "Tag":
+        return df(op["variants"][op["tag"]], [{"t": "Sum", "s": "General", "rows": op["variants"]}])
+    raise Malformed(f"unknown op {k}")
+
+
+def n_value(ports, d):
+    return sum(1 for p in ports[d] if isinstance(p, tuple) and p[0] == "value")
+
+
+def other_index(ports, d):
+    """offset of the 'other' port in direction d ('in'/'out'), or None"""
+    return len(ports[d]) if ports["other_" + d] else None
+
+
+def port_kind(ports, d, off):
+    lst = ports[d]
+    if 0 <= off < len(lst):
+        return lst[off]
+    if off == len(lst) and ports["other_" + d]:
+        return ports["other_" + d]
+    return None
+
+
+def inner_signature(op):
+    """(input row, output row) canonical, of the dataflow graph a container holds; else None"""
+    k = op["op"]
+    if k in ("DFG", "Case"):
+        return canon(op["signature"]["input"]), canon(op["signature"]["output"])
+    if k == "FuncDefn":
+        b = op["signature"]["body"]
+        return canon(b["input"]), canon(b["output"])
+    if k == "DataflowBlock":
+        return canon(op["inputs"]), canon([{"t": "Sum", "s": "General", "rows": op["sum_rows"]},
+                                           *op["other_outputs"]])
+    if k == "TailLoop":
+        return canon([*op["just_inputs"], *op["rest"]]), canon(
+            [{"t": "Sum", "s": "General", "rows": [op["just_inputs"], op["just_outputs"]]}, *op["rest"]])
+    return None
+
+
+def bound_of(t):
+    """least upper bound of a canonical type"""
+    k = t.get("t")
+    if k == "Q":
+        return "A"
+    if k in ("I", "G"):
+        return "C"
+    if k == "Sum":
+        rows = sum_rows(t)
+        return "A" if any(bound_of(x) == "A" for r in rows for x in r) else "C"
+    if k in ("V", "R"):
+        return t["b"]
+    if k in ("Opaque", "Alias"):
+        return t["bound"]
+    return "A"
+
+
+# ----------------------------------------------------------------------------- substitution
+def subst(t, args):
+    if isinstance(t, list):
+        return subst_row(t, args)
+    if not isinstance(t, dict):
+        return t
+    k = t.get("t")
+    if k == "V":
+        a = args[t["i"]] if t["i"] < len(args) else None
+        if a is None:
+            return t
+        if a["tya"] == "Type":
+            return a["ty"]
+        if a["tya"] == "Variable" and a["cached_decl"].get("tp") == "Type":
+            return {"t": "V", "i": a["idx"], "b": a["cached_decl"]["b"]}
+        return t
+    if k == "Sum":
+        if t["s"] == "Unit":
+            return t
+        return {"t": "Sum", "s": "General", "rows": [subst_row(r, args) for r in t["rows"]]}
+    if k == "G":
+        return {**t, "input": subst_row(t["input"], args), "output": subst_row(t["output"], args)}
+    if k == "Opaque":
+        return {**t, "args": [subst_arg(a, args) for a in t["args"]]}
+    return t
+
+
+def subst_arg(a, args):
+    if a["tya"] == "Type":
+        return {"tya": "Type", "ty": subst(a["ty"], args)}
+    if a["tya"] == "Sequence":
+        return {"tya": "Sequence", "elems": [subst_arg(e, args) for e in a["elems"]]}
+    if a["tya"] == "Variable" and a["idx"] < len(args):
+        return args[a["idx"]]
+    return a
+
+
+def subst_row(row, args):
+    out = []
+    for t in row:
+        if isinstance(t, dict) and t.get("t") == "R":
+            a = args[t["i"]] if t["i"] < len(args) else None
+            if a is not None and a["tya"] == "Sequence":
+                out.extend(e["ty"] if e["tya"] == "Type" else t for e in a["elems"])
+                continue
+            if a is not None and a["tya"] == "Variable":
+                out.append({"t": "R", "i": a["idx"], "b": t["b"]})
+                continue
+            out.append(t)
+        else:
+            out.append(subst(t, args))
+    return out
+
+
+def arg_fits(a, p):
+    """check_type_arg: does type argument `a` fit parameter `p` (both wire JSON)?"""
+    if a["tya"] == "Variable":
+        return param_contains(p, a["cached_decl"])
+    tp = p["tp"]
+    if tp == "Type":
+        return a["tya"] == "Type" and (p["b"] == "A" or bound_of(canon(a["ty"])) == "C")
+    if tp == "BoundedNat":
+        return a["tya"] == "BoundedNat" and (p.get("bound") is None or a["n"] < p["bound"])
+    if tp == "String":
+        return a["tya"] == "String"
+    if tp == "List":
+        return a["tya"] == "Sequence" and all(
+            arg_fits(e, p["param"]) or (e["tya"] == "Type" and e["ty"].get("t") == "R")
+            for e in a["elems"])
+    if tp == "Tuple":
+        return a["tya"] == "Sequence" and len(a["elems"]) == len(p["params"]) and all(
+            arg_fits(e, q) for e, q in zip(a["elems"], p["params"]))
+    if tp == "Extensions":
+        return a["tya"] == "Extensions"
+    return False
+
+
+def param_contains(p, q):
+    if p["tp"] != q["tp"]:
+        return False
+    tp = p["tp"]
+    if tp == "Type":
+        return p["b"] == "A" or q["b"] == "C"
+    if tp == "BoundedNat":
+        return p.get("bound") is None or (q.get("bound") is not None and p["bound"] >= q["bound"])
+    if tp == "List":
+        return param_contains(p["param"], q["param"])
+    if tp == "Tuple":
+        return len(p["params"]) == len(q["params"]) and all(
+            param_contains(a, b) for a, b in zip(p["params"], q["params"]))
+    return True
